@@ -1,3 +1,21 @@
+// ---- the tail of BitfieldUnit::codegen (from `let access_spec = ..` to the end of the function): where the `_bitfield_N` member is pushed and
+// ---- the layout tracker is told about the unit; real text, its free variables as parameters -----------------------------------------------
+pub mod unit_codegen {
+    use super::*; use super::struct_layout::*;
+    pub struct Bitfield { pub off: Option<usize>, pub into_unit: usize }
+    impl Bitfield { pub fn offset(&self) -> Option<usize> { self.off } pub fn offset_into_unit(&self) -> usize { self.into_unit } }
+    pub struct BfList { pub a: [Bitfield; 1] }
+    impl BfList { pub fn first(&self) -> Option<&Bitfield> { Some(&self.a[0]) } pub fn len(&self) -> usize { 1 } }
+    pub struct Toks { pub a: [Option<proc_macro2::TokenStream>; 4], pub n: usize }
+    impl Toks { pub fn new() -> Self { Toks { a: [None; 4], n: 0 } } pub fn extend<I: IntoIterator<Item = proc_macro2::TokenStream>>(&mut self, it: I) { for t in it { self.a[self.n] = Some(t); self.n += 1; } } }
+    pub fn unit_tail(ctx: &BindgenContext, struct_layout: &mut StructLayoutTracker, fields: &mut Toks, methods: &mut Toks, bfields: &BfList, layout: Layout,
+                     field_ty: syn::Type, unit_field_ty: syn::Type, unit_visibility: FieldVisibilityKind, generate_ctor: bool) {
+        let unit_field_ident = proc_macro2::Ident(0); let ctor_name = proc_macro2::Ident(0); let ctor_params: [u8; 0] = []; let ctor_impl = proc_macro2::TokenStream::Other;
+        let access_spec = access_specifier(unit_visibility);
+/*UNIT_TAIL*/
+    }
+}
+/*SAW_UNIT_MACRO*/
 #[cfg(kani)]
 mod proofs {
     use super::*;
@@ -128,16 +146,55 @@ mod proofs {
         let layout = any_layout();
         let ty = Type { layout: if kani::any() { Some(layout) } else { None }, kind: TypeKind::Comp };
         let mut t = StructLayoutTracker::new(&ctx, &comp, &ty, "s", FieldVisibilityKind::Public, kani::any());
-        if kani::any() { t.saw_vtable(); }
-        if kani::any() { t.saw_bitfield_unit(any_layout()); }
         let off = |x: bool| if x { let o: usize = kani::any(); kani::assume(o <= 1 << 35); Some(o) } else { None };
+        if kani::any() { t.saw_vtable(); }
+        if kani::any() { saw_unit!(t, any_layout(), off(kani::any())); }
         let _ = t.saw_field_with_layout("a", any_layout(), off(kani::any()));
-        if kani::any() { t.saw_bitfield_unit(any_layout()); }
+        if kani::any() { saw_unit!(t, any_layout(), off(kani::any())); }
         let _ = t.saw_field_with_layout("b", any_layout(), off(kani::any()));
         if kani::any() { t.saw_flexible_array(); }
         let _ = t.add_tail_padding("s", layout);
         let _ = t.pad_struct(layout);
         let _ = t.requires_explicit_align(layout);
+    }
+    /// `struct { M m0; T f : w; }` - T of size = alignment TA, m0 of alignment A0 and symbolic size: the allocation unit member must start at the byte
+    /// where C starts the bit-field (the accessors address it at bit 0 of the unit). C side: Itanium rule (a bit-field that would straddle a
+    /// T-aligned boundary starts at the next one).  Unit as bitfields_to_allocation_units builds it (kernel k2_alloc of C03): a byte array of
+    /// ceil(w / 8) bytes starting at the first bit-field.
+    fn unit_case<const A0: usize, const TA: usize>() {
+        let m: usize = kani::any(); kani::assume(m >= 1 && m <= 6); let s0 = m * A0;
+        let w: usize = kani::any(); kani::assume(w >= 1 && w <= 8 * TA);
+        let b0 = s0 * 8;
+        let c_first = if (b0 % (TA * 8)) + w > TA * 8 { up(b0, TA * 8) } else { b0 };
+        let sa = mx(A0, TA);
+        let csize = up((c_first + w + 7) / 8, sa);
+        let unit_size = (w + 7) / 8;
+        let ctx = BindgenContext { opts: Options { force_explicit_padding: kani::any(), enable_cxx_namespaces: kani::any(), flexarray_dst: false }, ptr_size: 8 };
+        let comp = CompInfo { union_: false, rust_union: (false, false) };
+        let layout = Layout::new(csize, sa);
+        let ty = Type { layout: Some(layout), kind: TypeKind::Comp };
+        let mut t = StructLayoutTracker::new(&ctx, &comp, &ty, "s", FieldVisibilityKind::Public, false);
+        let pad0 = field(t.saw_field_with_layout("m", Layout::new(s0, A0), Some(0)));
+        assert!(pad0.is_none(), "padding in front of the first member");
+        let ulayout = Layout::new(unit_size, 1);
+        let unit_ty = helpers::bitfield_unit(&ctx, ulayout);
+        let mut fields = unit_codegen::Toks::new(); let mut methods = unit_codegen::Toks::new();
+        let bfs = unit_codegen::BfList { a: [unit_codegen::Bitfield { off: Some(c_first), into_unit: 0 }] };
+        unit_codegen::unit_tail(&ctx, &mut t, &mut fields, &mut methods, &bfs, ulayout, unit_ty, unit_ty, FieldVisibilityKind::Public, kani::any());
+        let tail = field(t.add_tail_padding("s", layout));
+        let pad = field(t.pad_struct(layout));
+        // ---- Rust side: repr(C) over m0, what unit_tail pushed (the unit member is the last thing it pushed), tail padding ----
+        let mut rcur = 0usize; let mut maxa = 1usize;
+        place(&mut rcur, &mut maxa, s0, A0, 0);
+        assert!(fields.n >= 1 && fields.n <= 2, "BitfieldUnit::codegen pushes the unit member, possibly after one padding member");
+        let mut unit_off = 0usize;
+        let mut j = 0; while j < 4 { if j < fields.n { match fields.a[j] { Some(proc_macro2::TokenStream::Field(f)) => { unit_off = place(&mut rcur, &mut maxa, f.size, f.align, 0); if j == fields.n - 1 { assert!(f.size == unit_size && f.align == 1, "unit member is not the byte array of the unit"); } }, _ => assert!(false, "not a member") } } j += 1; }
+        assert!(unit_off * 8 == c_first, "the bit-field allocation unit does not start where C starts its first bit-field: every accessor of the unit reads and writes the wrong bytes");
+        if let Some(p) = tail { place(&mut rcur, &mut maxa, p.size, p.align, 0); }
+        if let Some(p) = pad { place(&mut rcur, &mut maxa, p.size, p.align, 0); }
+        assert!(up(rcur, sa) == csize, "struct size differs between C and the emitted Rust struct");
+        kani::cover!(c_first != b0, "bit-field pushed to the next boundary of its type");
+        kani::cover!(c_first == b0, "bit-field packed right behind the member");
     }
     /*GENERATED*/
 }
